@@ -104,6 +104,11 @@ class Case:
         q = list(assumptions) + list(lemmas) + [negated]
         res, s, backend = CTX.solve(q, full_to, guard=True, mode="quick")
         env = None
+        if res == "unknown" and on_model is not None and getattr(self, "try_envs", None):
+            # the concrete environments that seeded the exploration are cheap candidate models (float screening; replayed like every model)
+            env = self.screen(q, self.try_envs)
+            if env is not None:
+                res, backend = "sat", "seed-env"
         if res == "unknown" and inputs and on_model is not None:
             # model search by partial concretisation before the long symbolic attempt (finding models is slower than refuting)
             env = self.instantiate_search(q, inputs, quat_groups, keep=keep)
@@ -237,6 +242,23 @@ class Case:
             res, s, _ = CTX.solve(q + side, timeout)
             if res == "sat":
                 return self.env_of(s, q)
+        return None
+
+    def screen(self, q, envs):
+        """first of the given concrete environments under which every formula of q evaluates to true in doubles (with the real semantics of
+        the abstracted functions), or None"""
+        CTX.feq_tol = 1e-9
+        try:
+            for env0 in envs:
+                env = dict(env0)
+                try:
+                    complete_env(env, q)
+                    if all(CTX.evalf(e, env) is True or CTX.evalf(e, env) == True for e in q):  # noqa: E712
+                        return env
+                except Exception:  # noqa
+                    continue
+        finally:
+            CTX.feq_tol = None
         return None
 
     def instantiate_search(self, q, inputs, quat_groups=(), tries=2, timeout=2000, keep=()):
